@@ -174,6 +174,10 @@ func TestConstructed(t *testing.T) {
 			return
 		}
 		want := renderBlocks(d.Blocks, false)
+		if labelNLCount > 0 {
+			kit.R.ClassN("spelling:label-over-two-lines", int64(labelNLCount))
+			labelNLCount = 0
+		}
 		if excludedF19 > 0 {
 			kit.R.ClassN("excluded-by-construction:F19-whitespace-only-code-line", int64(excludedF19))
 			excludedF19 = 0
